@@ -171,46 +171,69 @@ def _binding(fn, name):
 
 
 def _int_elements(fn, seq, depth=0):
-    """Is `seq` (an expression) a collection whose elements are integers by construction?"""
-    if depth > 4 or seq is None:
-        return False
+    """Is `seq` (an expression) a collection whose elements are integers by construction?  True / False (its elements are
+    positively something else: part names, strings) / None (not decided)."""
+    if depth > 5 or seq is None:
+        return None
     if isinstance(seq, ast.Name):
         b_ = _binding(fn, seq.id)
         if b_ is None and isinstance(fn, (ast.FunctionDef, ast.AsyncFunctionDef)) and seq.id in [a_.arg for a_ in fn.args.args]:
             srcs = PARAM_SOURCES.get((fn.name, seq.id), [])
-            return bool(srcs) and all(_int_elements(cf, av, depth + 1) for cf, av in srcs)
+            rs_ = [_int_elements(cf, av, depth + 1) for cf, av in srcs]
+            return None if not rs_ or None in rs_ else all(rs_)
         return _int_elements(fn, b_, depth + 1)
-    if isinstance(seq, ast.Call) and dotted(seq.func) in ("sorted", "list", "set", "tuple") and seq.args:
-        return _int_elements(fn, seq.args[0], depth + 1)
+    if isinstance(seq, ast.Call) and dotted(seq.func) in ("sorted", "list", "set", "tuple", "cast") and seq.args:
+        return _int_elements(fn, seq.args[-1] if dotted(seq.func) == "cast" else seq.args[0], depth + 1)
+    # a property / helper of the allocator's own computation: decided on what it returns
+    hname = None
+    if isinstance(seq, ast.Attribute) and dotted(seq.value) in ("self", "cls"):
+        hname = seq.attr
+    elif isinstance(seq, ast.Call) and (dotted(seq.func) or "").split(".")[-1] in HELPERS:
+        hname = (dotted(seq.func) or "").split(".")[-1]
+    if hname is not None and hname in HELPERS:
+        h = HELPERS[hname]
+        rs_ = [_int_elements(h, r_.value, depth + 1) for r_ in ast.walk(h) if isinstance(r_, ast.Return) and r_.value is not None]
+        return None if not rs_ or None in rs_ else all(rs_)
     if isinstance(seq, (ast.ListComp, ast.GeneratorExp, ast.SetComp)):
         e = seq.elt
         if isinstance(e, ast.Call) and dotted(e.func) == "int":
             return True
         if isinstance(e, ast.Attribute) and e.attr == "idx":
             return True  # PackURI.idx: int | None
+        if isinstance(e, ast.Attribute) and e.attr in ("partname", "filename", "ext", "baseURI", "rId", "name"):
+            return False  # strings: they sort lexicographically
+        if isinstance(e, ast.Call) and dotted(e.func) in ("str", "PackURI"):
+            return False
         if isinstance(e, ast.Name):
             for g in seq.generators:
                 if isinstance(g.target, ast.Name) and g.target.id == e.id:
                     return _int_elements(fn, g.iter, depth + 1)
-        return False
-    return False
+        return None
+    return None
 
 
 def gap_scan_problem(fn):
     """A first-gap scan (`enumerate(P)` compared position by position) is only sound over a numerically ascending P:
-    the enumerated sequence must be sorted(...) of integers.  Returns a description of the problem or None."""
+    the enumerated sequence must be sorted(...) of integers.  Returns a description of the problem or None; a description
+    starting with "?" says that the order of P was not decided (an analysis gap, not a counter-fact)."""
     for n in ast.walk(fn):
         if isinstance(n, ast.Call) and dotted(n.func) == "enumerate" and n.args:
             seq = n.args[0]
             src = seq
             if isinstance(seq, ast.Name):
                 src = _binding(fn, seq.id)
+            if isinstance(seq, ast.Name) and src is None and isinstance(fn, (ast.FunctionDef, ast.AsyncFunctionDef)) \
+                    and seq.id in [a_.arg for a_ in fn.args.args]:
+                return "?the gap scan enumerates the parameter `%s`: whether it is sorted is not followed to the callers" % seq.id
             if not (isinstance(src, ast.Call) and dotted(src.func) == "sorted"):
                 return "the gap scan enumerates `%s`, which is not sorted: in document order an id below an earlier one is skipped " \
                        "and a used value can be returned" % ast.unparse(seq)
-            if src.keywords or not _int_elements(fn, src.args[0]):
+            ie_ = None if src.keywords else _int_elements(fn, src.args[0])
+            if ie_ is False:
                 return "the gap scan enumerates `%s`, sorted by something other than the integer it is compared with (strings / " \
                        "part names sort image10 before image2)" % ast.unparse(seq)
+            if ie_ is None:
+                return "?the gap scan enumerates `%s`: what its elements are sorted by is not decided" % ast.unparse(seq)
     return None
 
 
@@ -488,9 +511,15 @@ def run(ctx):
         # the allocator together with the helpers / properties of the repository it computes through (extract-method refactors
         # move the scan or the population query into a helper; the rule is about the computation, not about one function body)
         reach = []
-        for _n, owner in walk_expanded(prog, f, depth=2):
-            if owner not in reach:
-                reach.append(owner)
+        from sa.inline import use_types as _ut6
+
+        _ut6(T)   # a delegate object held in an attribute (`self._shape_ids.next_id()`) is followed by its type
+        try:
+            for _n, owner in walk_expanded(prog, f, depth=2):
+                if owner not in reach:
+                    reach.append(owner)
+        finally:
+            _ut6(None)
         src = "\n".join(ast.unparse(g.node) for g in reach)
         HELPERS.clear()
         for g in reach[1:]:
@@ -544,6 +573,8 @@ def run(ctx):
             ctx.error(key, "no recognised fresh-value idiom in the allocator (max+1, first gap, candidate scan, counter ...)")
         elif exh:
             ctx.violation("R6.2", key + ":exhaustion", exh, file=f.file, line=f.line)
+        elif any("gap" in i or "enumerate" in i for i in idi) and gap and gap.startswith("?"):
+            ctx.error(key, gap[1:])
         elif any("gap" in i or "enumerate" in i for i in idi) and gap:
             ctx.violation("R6.2", key + ":order", gap, file=f.file, line=f.line)
         elif stale:
@@ -572,9 +603,15 @@ def run(ctx):
         env = {}
         for n in walk_own(g.node):
             if isinstance(n, ast.Assign) and isinstance(n.targets[0], ast.Name):
-                v = prog.const(n.value, g.module, env)
+                v = prog.const(n.value, g.module, env, g.cls)
                 if isinstance(v, int):
                     env[n.targets[0].id] = v
+            elif isinstance(n, ast.Assign) and isinstance(n.targets[0], ast.Tuple) and isinstance(n.value, ast.Tuple) \
+                    and len(n.targets[0].elts) == len(n.value.elts):
+                for t_, v_ in zip(n.targets[0].elts, n.value.elts):
+                    v = prog.const(v_, g.module, env, g.cls)
+                    if isinstance(t_, ast.Name) and isinstance(v, int):
+                        env[t_.id] = v
         for n in ast.walk(g.node):
             if isinstance(n, ast.Compare) and len(n.ops) == 1 and isinstance(n.ops[0], (ast.LtE, ast.Lt)) and len(n.comparators) == 1:
                 v = prog.const(n.comparators[0], g.module, env, g.cls)
